@@ -231,6 +231,8 @@ class Z3Dom:
         self.known_cache = {}
         self.str_codes = {}
         self.divisors = []
+        self.ext_registry = []
+        self.fact_trig = []
         self.loop_params = []    # active summarisation variables
         self.notes = []
         self.pc_getter = lambda: []
@@ -287,12 +289,20 @@ class Z3Dom:
         e = zconst(v)
         if e.is_int():
             return v
+        q = _int_quotient(e)
+        if q is not None:
+            a, c = q            # e == a / c with a: Int term, c: positive int
+            return lower(z3.If(a >= 0, a / c, -((-a) / c)))
         return lower(z3.If(e >= 0, z3.ToInt(e), -z3.ToInt(-e)))
 
     def floor(self, v):
         e = zconst(v)
         if e.is_int():
             return v
+        q = _int_quotient(e)
+        if q is not None:
+            a, c = q
+            return lower(a / c)
         return lower(z3.ToInt(e))
 
     def floordiv(self, a, b):
@@ -374,7 +384,7 @@ class Z3Dom:
         hit = self.sqrt_of.get(key)
         if hit is None or not hit[0].eq(s):
             self.sqrt_of[key] = (s, t)     # keeps the term alive (z3 re-uses AST ids)
-            self.facts.append(z3.Implies(te >= 0, z3.And(s * s == te, s >= 0)))
+            self.add_fact(z3.Implies(te >= 0, z3.And(s * s == te, s >= 0)), trigger=s)
         return R(s)
 
     def int_power(self, a, k, float_exp=False):
@@ -505,6 +515,36 @@ class Z3Dom:
         a.ident = self.opaque_int(name + "_id", keys)
         return a
 
+    def ext_identity(self, a):
+        """identity of an array *value*: arrays that are provably equal element-wise under the
+        current path condition get the same identity (used to key opaque functions of computed arrays)"""
+        if a.ident is not None:
+            return a.ident
+        i, j = z3.Int("ext!i"), z3.Int("ext!j")
+        if isinstance(a, Arr2):
+            probe = a.at(R(i), R(j))
+            shape = (a.r, a.c)
+        else:
+            probe = a.at(R(i))
+            shape = (a.n,)
+        pre, pim = (probe.re, probe.im) if isinstance(probe, Cx) else (probe, Fraction(0))
+        pre, pim = _real(zconst(pre)), _real(zconst(pim))
+        for (shape2, re2, im2, ident) in self.ext_registry:
+            if len(shape2) != len(shape):
+                continue
+            same_shape = z3.And([zconst(x) == zconst(y) for x, y in zip(shape, shape2)])
+            inr = z3.And([z3.And(v >= 0, v < zconst(d)) for v, d in zip((i, j), shape)])
+            if pre.eq(re2) and pim.eq(im2):
+                ok = self.quick_unsat(list(self.pc_getter()) + self.facts + [z3.Not(same_shape)])
+            else:
+                ok = self.quick_unsat(list(self.pc_getter()) + self.facts +
+                                      [z3.Or(z3.Not(same_shape), z3.And(inr, z3.Or(pre != re2, pim != im2)))])
+            if ok:
+                return ident
+        ident = R(z3.Int(self.fresh_name("extid")))
+        self.ext_registry.append((shape, pre, pim, ident))
+        return ident
+
     def known(self, cond):
         if isinstance(cond, bool):
             return cond
@@ -633,9 +673,14 @@ class Z3Dom:
             return V.s_ite(V.b_and(V.s_cmp(">=", j, lo), V.s_cmp("<", j, hi)), v, zero)
         return self.seq_functional("total", masked)
 
-    def dtft(self, seq_fn, length, f, params=()):
-        """DTFT(s, f) = sum_j s[j] exp(-2 pi i f j) of the zero-extended sequence"""
-        return self.seq_functional("dtft", seq_fn, args=(f,))
+    def dtft(self, seq_fn, length, num, den):
+        """DTFT(s, f) = sum_j s[j] exp(-2 pi i f j) of the zero-extended sequence at f = num/den
+        (kept as a pair of integers so that grid reasoning stays linear)"""
+        return self.seq_functional("dtft", seq_fn, args=(num, den))
+
+    def dtftz(self, seq_fn, num, den):
+        """two-sided DTFT  sum_{j in Z} t[j] exp(-2 pi i (num/den) j)  of a finitely supported sequence"""
+        return self.seq_functional("dtftz", seq_fn, args=(num, den))
 
     # ---- solver access
     def solver(self, timeout_ms=None):
@@ -643,31 +688,129 @@ class Z3Dom:
         s.set("timeout", timeout_ms or self.timeout_ms)
         return s
 
-    def quick_unsat(self, formulas, timeout_ms=3000):
-        import time
-        s = self.solver(timeout_ms)
+    def add_fact(self, f, trigger=None):
+        """an axiom instance; with a trigger term it is only handed to the solver when that term
+        occurs in the query (keeps unrelated non-linear facts out of linear queries)"""
+        self.facts.append(f)
+        if trigger is not None:
+            self.fact_trig.append((f, trigger))
+
+    def _prep(self, formulas):
+        if not self.fact_trig:
+            return formulas
+        trig = {}
+        for f, t in self.fact_trig:
+            trig[f.get_id()] = (f, t)
+        plain, cond = [], []
         for f in formulas:
+            hit = trig.get(f.get_id())
+            if hit is not None and hit[0].eq(f):
+                cond.append(hit)
+            else:
+                plain.append(f)
+        if not cond:
+            return formulas
+        seen = set()
+
+        def visit(e):
+            stack = [e]
+            while stack:
+                x = stack.pop()
+                i = x.get_id()
+                if i in seen:
+                    continue
+                seen.add(i)
+                stack.extend(x.children())
+        for f in plain:
+            visit(f)
+        out = list(plain)
+        changed = True
+        pending = list(cond)
+        while changed and pending:
+            changed = False
+            rest = []
+            for (f, t) in pending:
+                if t.get_id() in seen:
+                    out.append(f)
+                    visit(f)
+                    changed = True
+                else:
+                    rest.append((f, t))
+            pending = rest
+        return out
+
+    def _check(self, s, timeout_ms):
+        """check() with a watchdog: z3's own timeout is not honoured inside some tactics"""
+        import threading
+        ctx = z3.main_ctx()
+        timer = threading.Timer(timeout_ms / 1000.0 + 1.0, ctx.interrupt)
+        timer.start()
+        try:
+            try:
+                return s.check()
+            except z3.Z3Exception:
+                return z3.unknown
+        finally:
+            timer.cancel()
+
+    def quick_unsat(self, formulas, timeout_ms=3000):
+        import time, os
+        s = self.solver(timeout_ms)
+        for f in self._prep(formulas):
             s.add(f)
         t = time.time()
-        r = s.check()
+        r = self._check(s, timeout_ms)
+        if os.environ.get("PYVC_TRACE") and time.time() - t > 0.5:
+            print("  [quick_unsat %.2fs -> %s, %d formulas]" % (time.time() - t, r, len(formulas)))
         self.stats["queries"] += 1
         self.stats["solver_s"] += time.time() - t
         return r == z3.unsat
 
     def check(self, formulas, timeout_ms=None):
-        import time
+        import time, os
         s = self.solver(timeout_ms)
-        for f in formulas:
+        for f in self._prep(formulas):
             s.add(f)
         t = time.time()
-        r = s.check()
+        r = self._check(s, timeout_ms or self.timeout_ms)
+        if os.environ.get("PYVC_TRACE") and time.time() - t > 0.5:
+            print("  [check %.2fs -> %s, %d formulas]" % (time.time() - t, r, len(formulas)))
         self.stats["queries"] += 1
         self.stats["solver_s"] += time.time() - t
         if r == z3.sat:
             return "sat", s.model()
         if r == z3.unsat:
             return "unsat", None
-        return "unknown", s.reason_unknown()
+        try:
+            why = s.reason_unknown()
+        except Exception:
+            why = "interrupted"
+        return "unknown", why
+
+
+def _int_quotient(e):
+    """recognise  ToReal(a)/c  [+ d]  (a: Int term, c: positive integer numeral, d: rational numeral with
+    d*c integral) and return (a + d*c, c): int() / floor() of such a term is an integer division,
+    which keeps index arithmetic inside linear integer arithmetic"""
+    d = Fraction(0)
+    if z3.is_add(e) and len(e.children()) == 2:
+        x, y = e.children()
+        if z3.is_rational_value(y):
+            e, d = x, Fraction(y.numerator_as_long(), y.denominator_as_long())
+        elif z3.is_rational_value(x):
+            e, d = y, Fraction(x.numerator_as_long(), x.denominator_as_long())
+        else:
+            return None
+    if z3.is_div(e):
+        num, den = e.children()
+        if z3.is_rational_value(den) and den.denominator_as_long() == 1 and den.numerator_as_long() > 0 \
+                and z3.is_app_of(num, z3.Z3_OP_TO_REAL):
+            c = den.numerator_as_long()
+            a = num.children()[0]
+            dc = d * c
+            if dc.denominator == 1:
+                return (a + int(dc)) if dc != 0 else a, c
+    return None
 
 
 def _collect_consts(e, out):
